@@ -501,7 +501,7 @@ def _check_log_site(ctx, tf: "TimeFlow", n, c: ast.Call, masks) -> int:
                     items = []
                     break
     if not items:
-        ctx.undecided("C01.SINK", f"{fn.qual}/{stream}@{n.lineno}", fn.loc(c), "payload is not a dict literal (plus constant-key stores)")
+        ctx.undecided("C01.SINK", ctx.okey(f"{fn.qual}/{stream}"), fn.loc(c), "payload is not a dict literal (plus constant-key stores)")
         return 0
     masked = masks.get(stream, set())
     # per-stream precision: evaluate each value with a taint that does not cleanse by key
@@ -516,7 +516,7 @@ def _check_log_site(ctx, tf: "TimeFlow", n, c: ast.Call, masks) -> int:
                           f"`{stream}` field `{ks}` = `{src(v)[:40]}` derives from the wall clock and is not masked by normalize_for_identity for that stream: "
                           "two replays write different canonical bytes")
         elif "TIME" in labels:
-            ctx.holds("C01.SINK", f"{fn.qual}/{stream}:{ks}@{n.lineno}", fn.loc(v), f"time-derived `{ks}` is masked for {stream} by the identity normaliser")
+            ctx.holds("C01.SINK", ctx.okey(f"{fn.qual}/{stream}:{ks}"), fn.loc(v), f"time-derived `{ks}` is masked for {stream} by the identity normaliser")
     return 1
 
 
